@@ -3,6 +3,7 @@
 package main
 
 import (
+	"math"
 	"bytes"
 	"flag"
 	"fmt"
@@ -781,6 +782,82 @@ func c03E2ESystematic(c *Ctx) {
 		many = append(many, c03Instantiate(r, w, g, uses, 0, false, true))
 	}
 	c03E2E(c, "e2e-chunks", c03Scenario{srcs: many, oneShot: "proto"}, true)
+	c03E2EShapes(c)
+}
+
+// c03E2EShapes: rare but valid shapes on the end-to-end path.  Weights the writers must hand on
+// exactly: beyond 2^53 (not representable in float64), at the int64 extremes, sums that wrap; a
+// heap-like period type that is no sample type; duplicate and empty sample type names; locations
+// without any mapping (fake mapping), empty function names, gaps in ids.
+func c03E2EShapes(c *Ctx) {
+	r := c.R
+	h := c03E2EHeaderBase()
+	quick := c.Tier != "thorough"
+	w := c03BaseWorld()
+	w.ls[1].rel = 0x300
+	mk := func(g c03Header, idmode int, uses ...c03Use) *profile.Profile {
+		return c03Instantiate(r, w, g, uses, idmode, false, true)
+	}
+	cmd := func(name, arg, file string, judged bool) c03Item {
+		return c03Item{kind: "cmd", a: name, b: arg, file: file, judged: judged}
+	}
+	const p53 = int64(1) << 53
+	pairs := [][4]int64{ // column 0 of the shared stack in a and in b; column 1 likewise
+		{p53, 1, 7, 0}, {-p53, -1, 0, 7}, {p53 + 1, 0, p53 + 3, 2}, {1<<62 + 1, 1, -(1<<62 + 1), -2},
+		{math.MaxInt64, 0, math.MaxInt64 - 2, 1}, {math.MinInt64, 0, math.MinInt64 + 1, 0},
+		{math.MaxInt64, 1, 5, 5}, {math.MinInt64, -1, 5, 5}, {p53 - 1, 1, p53, p53}, {1<<61 + 1, 1<<61 + 1, 3, 3},
+		{math.MaxInt64, math.MinInt64, 1, 1}, {p53*3 + 1, 2, 1, 0},
+	}
+	for k, v := range pairs {
+		if quick && k%2 == 1 && k > 5 {
+			continue
+		}
+		a := mk(h, 0, c03Use{0, []int64{v[0], v[2]}}, c03Use{1, []int64{1, 1}})
+		b := mk(h, k%4, c03Use{0, []int64{v[1], v[3]}}, c03Use{1, []int64{v[2], v[0]}})
+		switch k % 4 {
+		case 0:
+			c03E2E(c, "e2e-extreme", c03Scenario{srcs: []*profile.Profile{a, b}, oneShot: "proto", files: true}, true, "shape:extreme")
+		case 1:
+			c03E2E(c, "e2e-extreme", c03Scenario{srcs: []*profile.Profile{b, a}, oneShot: "proto"}, true, "shape:extreme")
+		case 2:
+			c03E2E(c, "e2e-extreme", c03Scenario{srcs: []*profile.Profile{a, b}, items: []c03Item{cmd("proto", "", "m1", true),
+				cmd("raw", "", "r1", true), cmd("top", "", "t", false), cmd("proto", "", "m2", true)}}, true, "shape:extreme")
+		default:
+			c03E2E(c, "e2e-extreme", c03Scenario{srcs: []*profile.Profile{a, b}, web: true,
+				items: []c03Item{{kind: "get", a: "/top", b: ""}, {kind: "get", a: "/download", judged: true}}}, true, "shape:extreme")
+		}
+		// a single source is handed on unmerged: its weights must come out as they went in
+		c03E2E(c, "e2e-extreme", c03Scenario{srcs: []*profile.Profile{a}, oneShot: PickS(r, []string{"proto", "raw"})}, false, "shape:extreme-single")
+	}
+	// value types: heap-like (period type is no sample type), duplicate names, empty names
+	heads := []c03Header{
+		{st: []profile.ValueType{{Type: "alloc_objects", Unit: "count"}, {Type: "alloc_space", Unit: "bytes"}}, pt: &profile.ValueType{Type: "space", Unit: "bytes"}, period: 524288},
+		{st: []profile.ValueType{{Type: "samples", Unit: "count"}, {Type: "samples", Unit: "count"}}, pt: &profile.ValueType{Type: "samples", Unit: "count"}, period: 1},
+		{st: []profile.ValueType{{Type: "x", Unit: "count"}, {Type: "y", Unit: "count"}}, pt: &profile.ValueType{Type: "", Unit: ""}, period: 3, defType: "y"},
+	}
+	for k, g := range heads {
+		g.time, g.dur = int64(100+k), 5
+		a := mk(g, 2, c03Use{0, []int64{1, 100}}, c03Use{1, []int64{3, 0}})
+		b := mk(g, 1, c03Use{0, []int64{-1, 8}}, c03Use{1, []int64{0, 0}})
+		c03E2E(c, "e2e-types", c03Scenario{srcs: []*profile.Profile{a, b}, oneShot: "proto"}, true, "shape:types")
+		c03E2E(c, "e2e-types", c03Scenario{srcs: []*profile.Profile{a, b, mk(g, 0)}, oneShot: "raw", files: true}, true, "shape:types")
+	}
+	// no mapping anywhere (every source gets the fake mapping), empty function names (proto only:
+	// they do not survive the raw text), sparse ids
+	nm := c03BaseWorld()
+	nm.ms = nil
+	for i := range nm.ls {
+		nm.ls[i].m = -1
+	}
+	nm.ls[1].rel = 0x300
+	nm.fs[1].name, nm.fs[1].sys = "", ""
+	nm.fs[3].file = ""
+	pa := c03Instantiate(r, nm, h, []c03Use{{0, []int64{1, 100}}, {1, []int64{2, 0}}}, 2, false, true)
+	pb := c03Instantiate(r, nm, h, []c03Use{{1, []int64{-2, 5}}, {0, []int64{4, 4}}}, 1, false, true)
+	c03E2E(c, "e2e-nomap", c03Scenario{srcs: []*profile.Profile{pa, pb}, oneShot: "proto"}, true, "shape:nomap")
+	c03E2E(c, "e2e-nomap", c03Scenario{srcs: []*profile.Profile{pa, mk(h, 2, c03Use{0, []int64{1, 1}})}, oneShot: "proto", files: true}, true, "shape:nomap")
+	c03E2E(c, "e2e-nomap", c03Scenario{srcs: []*profile.Profile{pb}, items: []c03Item{cmd("proto", "", "m1", true), cmd("proto", "f0", "m2", false),
+		cmd("proto", "", "m3", true)}}, false, "shape:nomap")
 }
 
 // random scenarios: pool-based inputs, option combinations, one-shot / session / web
